@@ -90,16 +90,17 @@ Section Loop.
 
   Definition IHf (f : nat) : Prop :=
     forall i pp npl xprev renc, inv i pp npl renc -> (N.to_nat (lenN tgt - i) < f)%nat ->
-      good (enc_loop hash st tgt f i pp npl xprev renc).
+      good (enc_loop hash st tgt (lenN tgt) f i (skipnN i tgt) pp npl xprev renc).
 
   (* ---------------- the literal continuation *)
   Definition lit_k (f : nat) (i pp npl : N) (x : option N) (renc : list N) : outcome (list N) :=
     match skipnN i tgt with
     | [] => Panic
-    | c :: _ =>
+    | c :: suf' =>
       match add_u32 pp 1 with
       | None => Panic
-      | Some pp' => obnd (emit_literal c renc) (fun r => enc_loop hash st tgt f (i + 1) pp' (npl + 1) x r)
+      | Some pp' => obnd (emit_literal c renc)
+                         (fun r => enc_loop hash st tgt (lenN tgt) f (i + 1) suf' pp' (npl + 1) x r)
       end
     end.
 
@@ -133,7 +134,8 @@ Section Loop.
       | Err => Err
       | Ok renc2 =>
         match ser_match st amp len_to_encode pp1, add_u32 amp total with
-        | Ok b, Some pp2 => enc_loop hash st tgt f (i1 + total) pp2 0 (Some code) (rev_append b renc2)
+        | Ok b, Some pp2 => enc_loop hash st tgt (lenN tgt) f (i1 + total) (skipnN lf (skipnN i tgt)) pp2 0 (Some code)
+                                     (rev_append b renc2)
         | Err, _ => Err
         | _, _ => Panic
         end
@@ -211,11 +213,13 @@ Section Loop.
     { unfold len. destruct (_ && _); auto. }
     rewrite Eb, add_u32_ok by lia.
     destruct (ser_match_shape _ _ _ _ _ Eb) as (Sb & b' & Rb).
+    rewrite skipnN_skipnN. replace (lf + i) with (i - lb + (lb + lf)) by lia.
     apply IH; [|lia]. apply inv_op; try lia.
     - eapply DecTo_eq;
         [eapply (DecTo_match st _ _ _ (mp - lb) len b (lb + lf) D2 ltac:(lia) ltac:(lia) mml_small Eb)| | |].
       + unfold len. destruct ((i - lb + (lb + lf) =? lenN tgt) && (mp + lf =? ref_len st)) eqn:E; lia.
       + lia.
+      + destruct Hwf as (_ & _ & _ & _ & _ & W6). exact W6.
       + now rewrite rev_append_rev, rev_app_distr, rev_involutive.
       + rewrite (match_eq i mp lb lf) by auto. apply firstn_seg.
       + lia.
@@ -225,7 +229,7 @@ Section Loop.
 
   (* ---------------- the loop *)
   Lemma enc_loop_S f i pp npl xprev renc :
-    enc_loop hash st tgt (S f) i pp npl xprev renc =
+    enc_loop hash st tgt (lenN tgt) (S f) i (skipnN i tgt) pp npl xprev renc =
     if i + key_len st <? lenN tgt then
       match (match xprev with
              | Some prev => if 0 <? npl then get_code_skip1 st prev (skipnN i tgt) else get_code st (skipnN i tgt)
@@ -236,11 +240,12 @@ Section Loop.
       | Ok None =>
         if min_nrun_len <=? get_nrun_len (skipnN i tgt) (lenN tgt - i) then
           obnd (ser_nrun (get_nrun_len (skipnN i tgt) (lenN tgt - i)))
-               (fun b => enc_loop hash st tgt f (i + get_nrun_len (skipnN i tgt) (lenN tgt - i)) pp 0 None
+               (fun b => enc_loop hash st tgt (lenN tgt) f (i + get_nrun_len (skipnN i tgt) (lenN tgt - i))
+                                  (skipnN (get_nrun_len (skipnN i tgt) (lenN tgt - i)) (skipnN i tgt)) pp 0 None
                                   (rev_append b renc))
         else lit_k f i pp npl None renc
       | Ok (Some code) =>
-        match find_best_match_lp st code (hash code) tgt i (lenN tgt - i) npl with
+        match find_best_match_lp st code (hash code) tgt (skipnN i tgt) i (lenN tgt - i) npl with
         | Panic => Panic
         | Err => Err
         | Ok None => lit_k f i pp npl (Some code) renc
@@ -285,6 +290,7 @@ Section Loop.
         destruct (min_nrun_len <=? nr) eqn:En; [|apply lit_good; auto; lia].
         destruct (ser_nrun_ok nr ltac:(lia)) as (b & Eb & Sb & b' & Rb). rewrite Eb. cbn [obnd].
         rewrite lenN_skipnN in N1. revert En. consts. intros En.
+        rewrite skipnN_skipnN. replace (nr + i) with (i + nr) by lia.
         apply IH; [|lia]. apply inv_op; try lia.
         * eapply DecTo_eq; [apply (DecTo_nrun st _ _ _ nr b (inv_dec _ _ _ _ Hi) ltac:(lia) Eb)| | |]; auto.
           -- now rewrite rev_append_rev, rev_app_distr, rev_involutive.
@@ -306,11 +312,13 @@ Section Loop.
   Qed.
 
   Theorem enc_main_good :
-    exists enc, obnd (enc_loop hash st tgt (S (length tgt)) 0 0 0 None []) (fun renc => Ok (rev renc)) = Ok enc /\
+    exists enc, obnd (enc_loop hash st tgt (lenN tgt) (S (length tgt)) 0 tgt 0 0 None [])
+                     (fun renc => Ok (rev renc)) = Ok enc /\
       lz_decode st enc = Ok tgt /\ Forall small enc.
   Proof.
-    destruct (loop_good (S (length tgt)) 0 0 0 None [] inv_init) as (renc & ppf & -> & D & S).
+    destruct (loop_good (S (length tgt)) 0 0 0 None [] inv_init) as (renc & ppf & E & D & S).
     { unfold lenN. lia. }
+    rewrite skipnN_0 in E. rewrite E.
     exists (rev renc). cbn [obnd]. split; auto. split.
     - eapply DecTo_final; eauto.
     - apply Forall_rev; auto.
